@@ -23,7 +23,9 @@ RULE = ('(a) seeded histories of opens (accepted / rejected by every handler '
         'systematic PAIRS of end causes issued at the same virtual instant in '
         'both orders on every transport mode (fault enumeration: 6 causes x 6 '
         'causes x 3 modes x 2 servers, threaded side under several '
-        'schedules). distinct = distinct (server, mode, cause-set, winning '
+        'schedules); (c) the same pairs on the OS-thread backend with seeded '
+        'line-level pre-emption inside close/poll/send/receive/disconnect '
+        '(models async_mode=threading). distinct = distinct (server, mode, cause-set, winning '
         'reason) signatures')
 ASSUMPTIONS = ['handlers have fixed two-argument signatures, so the legacy '
                'one-argument retry cannot re-run a handler body',
@@ -34,7 +36,8 @@ ASSUMPTIONS = ['handlers have fixed two-argument signatures, so the legacy '
                'only by the thorough tier (thread backend, line-level '
                'pre-emption)']
 REQUIRED = ['automaton', 'reason_ledger', 'exactly_one_disconnect',
-            'after_end_probes', 'cause_pairs', 'handler_exception_contained']
+            'after_end_probes', 'cause_pairs', 'handler_exception_contained',
+            'preempt_pairs', 'preemptions']
 SHARD_TIMEOUT = {'quick': 500, 'thorough': 3400}
 
 TIMEOUT_REASONS = {'ping timeout', 'transport close', 'transport error'}
@@ -377,8 +380,86 @@ def run_pair(rec, case):
         sim.teardown()
 
 
+def run_pair_preempt(rec, case):
+    """The pair scenario on the OS-thread backend with line-level
+    pre-emption inside the functions named in vf/preempt.py (models
+    async_mode='threading')."""
+    from vf import preempt
+    import engineio.socket as esocket
+    mode, c1, c2, seed = case['mode'], case['c1'], case['c2'], case['sched']
+    pi, pt = 4, 2
+    rec.evaluations += 1
+    sim = scen.make_sim('T', server_kwargs={'ping_interval': pi,
+                                            'ping_timeout': pt},
+                        policy='random', seed=seed, yield_prob=0.2,
+                        backend='thread')
+    R = hist.Runner(sim)
+    calls = []
+    orig_close = esocket.Socket.close
+
+    def spy_close(self, *a, **k):
+        ent = {'sid': self.sid, 'enter': sim.tick(),
+               'guard_open': not self.closed and not self.closing}
+        calls.append(ent)
+        try:
+            return orig_close(self, *a, **k)
+        finally:
+            ent['exit'] = sim.tick()
+    # instrument the real functions first: the spy is harness code and must
+    # not become a pre-emption point
+    preempt.install(sim.sched, seed, p=case.get('p', 0.2))
+    esocket.Socket.close = spy_close
+
+    def V(key, msg):
+        rec.viol(key, msg + ' | PREEMPT mode=%s causes=(%s,%s) seed=%d '
+                 'history=%s' % (mode, c1, c2, seed, R.witness(20)), case)
+    try:
+        s = R.open('websocket' if mode == 'websocket' else 'polling',
+                   autopoll=True, autopong=None if 'timeout' in (c1, c2)
+                   else 0)
+        if 'timeout' in (c1, c2):
+            R.causes.append({'s': s.n, 'cause': 'silence',
+                             'c_start': s.h.open_ticket.c_start, 't': 0.0})
+        if mode == 'upgraded':
+            R.upgrade_start(s, 'correct')
+            sim.quiesce()
+        if 'timeout' in (c1, c2):
+            sim.advance(pi + pt + 0.001)
+        else:
+            sim.advance(1)
+        rec.count('preempt_pairs')
+        ok1 = apply_cause(R, s, c1, pi, pt)
+        ok2 = apply_cause(R, s, c2, pi, pt)
+        if not (ok1 and ok2):
+            return
+        sim.quiesce()
+        ev, pre = preempt.uninstall()
+        rec.count('preempt_line_events', ev)
+        rec.count('preemptions', pre)
+        final_phase(rec, sim, R, lambda k, m: None, pi, pt)
+        d = R.disconnects(s)
+        mine = [c for c in calls if c['sid'] == s.sid and c['guard_open']]
+        if len(d) > 1:
+            # two callers found the guard open: they were inside the
+            # check-then-set window of Socket.close() at the same time
+            overlapping = len(mine) > 1
+            V('close-guard-preemption' if overlapping else 'disconnect-twice',
+              'session got %d disconnect events (%r); %d close() calls found '
+              'the closing/closed guard open' % (
+                  len(d), [x['reason'] for x in d], len(mine)))
+        elif len(d) == 0:
+            V('no-disconnect', 'no disconnect event under pre-emption')
+        rec.key('preempt/%s/%s/%s/%d' % (mode, c1, c2, len(d)))
+    finally:
+        preempt.uninstall()
+        esocket.Socket.close = orig_close
+        sim.teardown()
+
+
 def dispatch(rec, case):
-    if case.get('pair'):
+    if case.get('preempt'):
+        run_pair_preempt(rec, case)
+    elif case.get('pair'):
         run_pair(rec, case)
     else:
         run_history(rec, case)
@@ -400,6 +481,18 @@ def plan(tier, seed):
                                           seed * 1000 if sc else 0)})
     for i in range(4):
         shards.append({'pairs': pairs[i::4]})
+    # pre-emptive tier (OS-thread backend, line-level pre-emption)
+    pre = []
+    pseeds = range(1, 4) if tier == 'quick' else range(1, 80)
+    for mode in ('polling', 'websocket', 'upgraded'):
+        for c1 in CAUSES:
+            for c2 in CAUSES:
+                for sd in pseeds:
+                    pre.append({'preempt': True, 'mode': mode, 'c1': c1,
+                                'c2': c2, 'sched': seed * 10000 + sd})
+    k = 2 if tier == 'quick' else 8
+    for i in range(k):
+        shards.append({'pairs': pre[i::k]})
     return shards
 
 
